@@ -319,7 +319,9 @@ impl<R: AsyncRead + AsyncSeek + Unpin + Send + 'static> AsyncArchiveReader<R> {
         }
 
         // Check session limits for all files combined
-        let total_bytes: u64 = file_requests.iter().map(|(_, _, size)| *size).sum();
+        let total_bytes: u64 = file_requests
+            .iter()
+            .fold(0u64, |acc, (_, _, size)| acc.saturating_add(*size));
         self.session_tracker
             .check_session_limits_with_addition(total_bytes, &self.security_limits)?;
 
